@@ -348,7 +348,7 @@ pub fn c13_case(_entry: &Entry, case: &Case, rep: &mut Report, tier: Tier, only:
         }
         let js: Vec<usize> = js.into_iter().flatten().collect();
         let lead = case.inputs[js[0]].as_ref().unwrap();
-        let kinds: Vec<OwnedKind> = owned_kinds(lead, tier).into_iter().filter(|k| only.map(|(p, ok)| p == group[0] && ok == k).unwrap_or(true)).collect();
+        let kinds: Vec<OwnedKind> = owned_kinds(lead, tier).into_iter().filter(|_| only.map(|(p, _)| p == group[0]).unwrap_or(true)).collect(); // replay: all owned variants of the recorded position, so that the signature is reproduced
         let mut failures: Vec<(OwnedKind, &'static str, String)> = Vec::new();
         let mut tried = 0usize;
         for kind in &kinds {
